@@ -6,6 +6,7 @@
 #[path = "../../common/mod.rs"]
 mod common;
 use common::*;
+use rlib_rand::lcg::LinearCongruentialGenerator64;
 use rlib_rand::randomable::Randomable;
 use rlib_rand::{Rand, Rng};
 use std::ops::RangeFull;
@@ -258,6 +259,628 @@ fn parse_u64s(ops: &[&str]) -> Option<Vec<u64>> {
     ops.iter().map(|t| t.trim().parse::<u64>().ok()).collect()
 }
 
+
+// ------------------------------------------------------------------------------------------------
+// `multi`: several live generators used interleaved, copied through every entry point Rust offers
+// ------------------------------------------------------------------------------------------------
+
+/// method-call syntax on the CONCRETE generator type (an inherent method of the same name would win here,
+/// while generic `R: Rand` code keeps calling the trait's)
+macro_rules! direct_next {
+    ($g:expr, $t:ty, $form:expr, $a:expr, $b:expr) => {{
+        let (a, b) = ($a as $t, $b as $t);
+        let r: $t = match $form {
+            "range" => $g.next(a..b),
+            "incl" => $g.next(a..=b),
+            "to" => $g.next(..b),
+            "toincl" => $g.next(..=b),
+            "full" => $g.next::<$t, RangeFull>(..),
+            _ => panic!("bad-form"),
+        };
+        r as i128
+    }};
+}
+
+/// what the harness needs from a generator type; implemented for EVERY const instantiation of the crate's LCG
+trait Gn: Rand + Copy + Clone + 'static {
+    fn seed(s: u64) -> Self;
+    fn raw(&mut self) -> u64;
+    fn next_direct(&mut self, ty: &str, form: &str, a: i128, b: i128) -> i128;
+    fn nextf_direct(&mut self, s: f64, e: f64) -> f64;
+    fn shuffle_direct<T>(&mut self, v: &mut [T]);
+}
+
+impl<const A: u64, const C: u64> Gn for LinearCongruentialGenerator64<A, C> {
+    fn seed(s: u64) -> Self {
+        Self::from_seed(s)
+    }
+    fn raw(&mut self) -> u64 {
+        self.next_raw()
+    }
+    fn next_direct(&mut self, ty: &str, form: &str, a: i128, b: i128) -> i128 {
+        match ty {
+            "i8" => direct_next!(self, i8, form, a, b),
+            "u8" => direct_next!(self, u8, form, a, b),
+            "i16" => direct_next!(self, i16, form, a, b),
+            "u16" => direct_next!(self, u16, form, a, b),
+            "i32" => direct_next!(self, i32, form, a, b),
+            "u32" => direct_next!(self, u32, form, a, b),
+            "i64" => direct_next!(self, i64, form, a, b),
+            "u64" => direct_next!(self, u64, form, a, b),
+            "isize" => direct_next!(self, isize, form, a, b),
+            "usize" => direct_next!(self, usize, form, a, b),
+            _ => panic!("bad-type"),
+        }
+    }
+    fn nextf_direct(&mut self, s: f64, e: f64) -> f64 {
+        self.next(s..e)
+    }
+    fn shuffle_direct<T>(&mut self, v: &mut [T]) {
+        self.shuffle(v)
+    }
+}
+
+/// a generator of the harness's own that forwards `next` to the real one: its `shuffle` is the trait's DEFAULT body
+struct Wrap<'a, R: Rand>(&'a mut R);
+impl<'a, R: Rand> Rand for Wrap<'a, R> {
+    fn next<T, Q>(&mut self, range: Q) -> T
+    where
+        Q: Randomable<T>,
+    {
+        self.0.next(range)
+    }
+}
+
+fn next_generic<R: Rand, T: Ty>(r: &mut R, form: &str, a: i128, b: i128) -> i128 {
+    T::next(r, form, T::from128(a), T::from128(b)).to128()
+}
+fn next_generic_dyn<R: Rand>(r: &mut R, ty: &str, form: &str, a: i128, b: i128) -> i128 {
+    match ty {
+        "i8" => next_generic::<R, i8>(r, form, a, b),
+        "u8" => next_generic::<R, u8>(r, form, a, b),
+        "i16" => next_generic::<R, i16>(r, form, a, b),
+        "u16" => next_generic::<R, u16>(r, form, a, b),
+        "i32" => next_generic::<R, i32>(r, form, a, b),
+        "u32" => next_generic::<R, u32>(r, form, a, b),
+        "i64" => next_generic::<R, i64>(r, form, a, b),
+        "u64" => next_generic::<R, u64>(r, form, a, b),
+        "isize" => next_generic::<R, isize>(r, form, a, b),
+        "usize" => next_generic::<R, usize>(r, form, a, b),
+        _ => panic!("bad-type"),
+    }
+}
+fn nextf_generic<R: Rand>(r: &mut R, s: f64, e: f64) -> f64 {
+    <R as Rand>::next(r, s..e)
+}
+fn shuffle_generic<R: Rand, T>(r: &mut R, v: &mut [T]) {
+    <R as Rand>::shuffle(r, v)
+}
+
+/// one draw operation (what it consumed is a matter of the implementation; the oracle REPLAYS operations, it never counts words)
+#[derive(Clone)]
+enum Draw {
+    Raw,
+    Nx { recv: char, ty: String, form: String, a: i128, b: i128 },
+    Nf { recv: char, s: f64, e: f64 },
+    Sh { recv: char, elt: String, n: usize },
+}
+
+#[derive(Clone)]
+struct Lineage {
+    seed: u64,
+    hist: Vec<Draw>,
+}
+
+const SHUFFLE_ELTS: [&str; 7] = ["usize", "u8", "str", "big", "zst", "boxed", "pair"];
+
+fn do_shuffle<G: Gn, T>(g: &mut G, recv: char, v: &mut [T]) {
+    match recv {
+        'd' => g.shuffle_direct(v),
+        'w' => Wrap(g).shuffle(v),
+        _ => shuffle_generic(g, v),
+    }
+}
+
+/// shuffle `n` elements of the given element type, tagged 0..n; returns the arrangement of the tags
+fn shuffle_elts<G: Gn>(g: &mut G, recv: char, elt: &str, n: usize) -> Option<Vec<usize>> {
+    match elt {
+        "usize" => {
+            let mut v: Vec<usize> = (0..n).collect();
+            do_shuffle(g, recv, &mut v);
+            Some(v)
+        }
+        "u8" => {
+            let mut v: Vec<u8> = (0..n).map(|i| i as u8).collect();
+            do_shuffle(g, recv, &mut v);
+            Some(v.iter().map(|&x| x as usize).collect())
+        }
+        "str" => {
+            let mut v: Vec<String> = (0..n).map(|i| format!("s{}", i)).collect();
+            do_shuffle(g, recv, &mut v);
+            Some(v.iter().map(|x| x[1..].parse::<usize>().unwrap_or(usize::MAX)).collect())
+        }
+        "big" => {
+            let mut v: Vec<[u64; 16]> = (0..n)
+                .map(|i| {
+                    let mut e = [0u64; 16];
+                    e[0] = i as u64;
+                    e[15] = !(i as u64);
+                    e
+                })
+                .collect();
+            do_shuffle(g, recv, &mut v);
+            Some(v.iter().map(|e| if e[15] == !e[0] && e[1..15].iter().all(|&x| x == 0) { e[0] as usize } else { usize::MAX }).collect())
+        }
+        "zst" => {
+            let mut v: Vec<()> = vec![(); n];
+            do_shuffle(g, recv, &mut v);
+            if v.len() == n {
+                None
+            } else {
+                Some(vec![usize::MAX])
+            }
+        }
+        "boxed" => {
+            let mut v: Vec<Box<usize>> = (0..n).map(Box::new).collect();
+            do_shuffle(g, recv, &mut v);
+            Some(v.iter().map(|x| **x).collect())
+        }
+        "pair" => {
+            let mut v: Vec<(u32, String)> = (0..n).map(|i| (i as u32, i.to_string())).collect();
+            do_shuffle(g, recv, &mut v);
+            Some(v.iter().map(|(x, s)| if s.parse::<u32>().ok() == Some(*x) { *x as usize } else { usize::MAX }).collect())
+        }
+        _ => Some(vec![usize::MAX]),
+    }
+}
+
+/// apply a draw: (observation, class, expected class). `canonical`: through generic `R: Rand` code whatever the
+/// receiver of the operation was (`w` stays: the default body is part of what is replayed)
+fn apply_draw<G: Gn>(g: &mut G, d: &Draw, canonical: bool) -> (String, String, String) {
+    let rc = |r: char| if canonical && r == 'd' { 'g' } else { r };
+    match d {
+        Draw::Raw => (g.raw().to_string(), "ok".into(), "ok".into()),
+        Draw::Nx { recv, ty, form, a, b } => {
+            let (min, max) = ty_bounds(ty);
+            let (lo, hi) = form_bounds(form, *a, *b, min, max);
+            let r = match rc(*recv) {
+                'd' => catch(|| g.next_direct(ty, form, *a, *b)),
+                'w' => catch(|| next_generic_dyn(&mut Wrap(g), ty, form, *a, *b)),
+                _ => catch(|| next_generic_dyn(g, ty, form, *a, *b)),
+            };
+            (show_res(&r), class_int(&r, lo, hi), if lo <= hi { "in".into() } else { "panic:assert".into() })
+        }
+        Draw::Nf { recv, s, e } => {
+            let r = match rc(*recv) {
+                'd' => catch(|| g.nextf_direct(*s, *e)),
+                'w' => catch(|| nextf_generic(&mut Wrap(g), *s, *e)),
+                _ => catch(|| nextf_generic(g, *s, *e)),
+            };
+            let want = if *s < *e { "in" } else { "panic:assert" };
+            match r {
+                Ok(x) => (format!("{:016x}", x.to_bits()), if *s <= x && x < *e { "in".into() } else { "out".into() }, want.into()),
+                Err(p) => (p.clone(), p, want.into()),
+            }
+        }
+        Draw::Sh { recv, elt, n } => match catch(|| shuffle_elts(g, rc(*recv), elt, *n)) {
+            Err(p) => (p.clone(), p, "perm".into()),
+            Ok(None) => (format!("zst{}", n), "perm".into(), "perm".into()),
+            Ok(Some(v)) => (show_list(&v), if is_perm_of_range(&v, *n) { "perm".into() } else { "notperm".into() }, "perm".into()),
+        },
+    }
+}
+
+#[derive(Clone)]
+#[allow(dead_code)]
+struct Holder<G> {
+    tag: String,
+    rng: G,
+    picks: Vec<usize>,
+}
+#[derive(Clone)]
+enum Either<G> {
+    Gen(G),
+    #[allow(dead_code)]
+    Other(u8),
+}
+#[derive(Clone)]
+struct Nested<G> {
+    inner: Holder<G>,
+    more: [G; 2],
+    opt: Option<G>,
+}
+fn dup_generic<T: Clone>(t: &T) -> T {
+    t.clone()
+}
+fn pass_by_value<T>(t: T) -> T {
+    t
+}
+
+/// bit copies first, then everything that goes through `Clone::clone` / `Clone::clone_from`
+const COPY_KINDS: [&str; 34] = [
+    "copy", "deref", "cell", "byvalue", "optcopied", "itercopied", "clone", "ufcs", "generic", "toowned", "clonefrom", "clonefromused",
+    "struct", "structfrom", "enum", "nested", "nestedarr", "nestedopt", "tuple", "option", "optcloned", "array", "boxed", "rc", "rcmakemut",
+    "arcunwrap", "cow", "vec", "vecmacro", "resize", "repeat", "refcell", "itercloned", "tovec",
+];
+
+#[allow(clippy::clone_on_copy)]
+fn copy_via<G: Gn>(kind: &str, a: &G) -> Option<G> {
+    use std::borrow::Cow;
+    use std::cell::{Cell, RefCell};
+    use std::rc::Rc;
+    use std::sync::Arc;
+    let holder = |g: G| Holder { tag: "holder".to_string(), rng: g, picks: vec![1, 2, 3] };
+    Some(match kind {
+        "copy" => {
+            let b = *a;
+            b
+        }
+        "deref" => {
+            let r = &a;
+            **r
+        }
+        "cell" => Cell::new(*a).get(),
+        "byvalue" => pass_by_value(*a),
+        "optcopied" => Some(a).copied()?,
+        "itercopied" => [*a].iter().copied().next()?,
+        "clone" => a.clone(),
+        "ufcs" => Clone::clone(a),
+        "generic" => dup_generic(a),
+        "toowned" => a.to_owned(),
+        "clonefrom" => {
+            let mut b = G::seed(0x5eed);
+            b.clone_from(a);
+            b
+        }
+        "clonefromused" => {
+            let mut b = G::seed(7);
+            b.raw();
+            b.raw();
+            b.clone_from(a);
+            b
+        }
+        "struct" => holder(*a).clone().rng,
+        "structfrom" => {
+            let src = holder(*a);
+            let mut dst = holder(G::seed(1));
+            dst.rng.raw();
+            dst.clone_from(&src);
+            dst.rng
+        }
+        "enum" => match Either::Gen(*a).clone() {
+            Either::Gen(g) => g,
+            Either::Other(_) => return None,
+        },
+        "nested" => Nested { inner: holder(*a), more: [*a, *a], opt: Some(*a) }.clone().inner.rng,
+        "nestedarr" => Nested { inner: holder(*a), more: [*a, *a], opt: Some(*a) }.clone().more[1],
+        "nestedopt" => Nested { inner: holder(*a), more: [*a, *a], opt: Some(*a) }.clone().opt?,
+        "tuple" => (*a, 1u8, "t".to_string()).clone().0,
+        "option" => Some(*a).clone()?,
+        "optcloned" => Some(a).cloned()?,
+        "array" => [*a, *a, *a].clone()[1],
+        "boxed" => *Box::new(*a).clone(),
+        "rc" => {
+            let r = Rc::new(*a);
+            (*r).clone()
+        }
+        "rcmakemut" => {
+            let mut r = Rc::new(*a);
+            let _keep = Rc::clone(&r);
+            *Rc::make_mut(&mut r)
+        }
+        "arcunwrap" => {
+            let r = Arc::new(*a);
+            let _keep = Arc::clone(&r);
+            Arc::unwrap_or_clone(r)
+        }
+        "cow" => Cow::Borrowed(a).into_owned(),
+        "vec" => vec![*a, *a].clone()[1],
+        "vecmacro" => vec![*a; 3][0],
+        "resize" => {
+            let mut v: Vec<G> = Vec::new();
+            v.resize(3, *a);
+            v[0]
+        }
+        "repeat" => std::iter::repeat(*a).take(2).last()?,
+        "refcell" => RefCell::new(*a).clone().into_inner(),
+        "itercloned" => [*a].iter().cloned().next()?,
+        "tovec" => [*a, *a][..].to_vec()[1],
+        _ => return None,
+    })
+}
+
+const ASSIGN_KINDS: [&str; 6] = ["assign", "clonefrom", "clone", "replace", "swap", "ufcsfrom"];
+
+#[allow(clippy::clone_on_copy)]
+fn assign_via<G: Gn>(kind: &str, dst: &mut G, src: &G) -> bool {
+    match kind {
+        "assign" => *dst = *src,
+        "clonefrom" => dst.clone_from(src),
+        "clone" => *dst = src.clone(),
+        "replace" => {
+            let _old = std::mem::replace(dst, *src);
+        }
+        "swap" => {
+            let mut t = *src;
+            std::mem::swap(dst, &mut t);
+        }
+        "ufcsfrom" => Clone::clone_from(dst, src),
+        _ => return false,
+    }
+    true
+}
+
+const ALL_KINDS: [&str; 9] = ["vec", "tovec", "iter", "extend", "boxed", "clonefrom", "copied", "holders", "array"];
+
+#[allow(clippy::clone_on_copy)]
+fn copy_all<G: Gn>(kind: &str, v: &Vec<G>) -> Option<Vec<G>> {
+    Some(match kind {
+        "vec" => v.clone(),
+        "tovec" => v[..].to_vec(),
+        "iter" => v.iter().cloned().collect(),
+        "extend" => {
+            let mut w = Vec::new();
+            w.extend_from_slice(v);
+            w
+        }
+        "boxed" => v.clone().into_boxed_slice().clone().into_vec(),
+        "clonefrom" => {
+            // into a used vector of another length
+            let mut w = vec![G::seed(3), G::seed(4), G::seed(5)];
+            w[0].raw();
+            w.clone_from(v);
+            w
+        }
+        "copied" => v.iter().copied().collect(),
+        "holders" => {
+            let hs: Vec<Holder<G>> = v.iter().map(|g| Holder { tag: "h".to_string(), rng: *g, picks: vec![] }).collect();
+            hs.clone().into_iter().map(|h| h.rng).collect()
+        }
+        "array" => {
+            // fixed-size arrays of generators (chunks of 2, the odd one out alone)
+            let mut w = Vec::new();
+            for ch in v.chunks(2) {
+                if ch.len() == 2 {
+                    let arr = [ch[0], ch[1]];
+                    w.extend_from_slice(&arr.clone());
+                } else {
+                    let arr = [ch[0]];
+                    w.extend_from_slice(&arr.clone());
+                }
+            }
+            w
+        }
+        _ => return None,
+    })
+}
+
+const DUP_ALL_CAP: usize = 6;
+
+fn recv_of(s: Option<&&str>) -> Option<char> {
+    match s {
+        Some(&"d") => Some('d'),
+        Some(&"g") => Some('g'),
+        Some(&"w") => Some('w'),
+        _ => None,
+    }
+}
+
+fn run_multi<G: Gn>(seed_toks: &[&str], ops: &[&str]) -> String {
+    let bad = || "I bad-op | V bad-op".to_string();
+    let seeds: Option<Vec<u64>> = seed_toks.iter().map(|t| t.parse::<u64>().ok()).collect();
+    let seeds = match seeds {
+        Some(s) => s,
+        None => return bad(),
+    };
+    if seeds.is_empty() || seeds.len() > 8 || ops.len() > 64 {
+        return INVALID.into();
+    }
+    let mut slots: Vec<(G, Lineage)> = seeds.iter().map(|&s| (G::seed(s), Lineage { seed: s, hist: vec![] })).collect();
+    let mut obs: Vec<String> = Vec::new();
+    let mut view: Option<String> = None;
+    let slot_tok = |t: Option<&&str>| -> Option<usize> { t.and_then(|x| x.parse::<u64>().ok()).filter(|&x| x < (1u64 << 32)).map(|x| x as usize) };
+    for (k, op) in ops.iter().enumerate() {
+        let t: Vec<&str> = op.split_whitespace().collect();
+        if t.is_empty() {
+            return bad();
+        }
+        let hd: Vec<&str> = t[0].split(':').collect();
+        let len = slots.len();
+        // a draw from one generator
+        let draw: Option<(usize, Draw)> = match (hd[0], hd.len(), t.len()) {
+            ("raw", 1, 2) | ("fork", 1, 2) => match slot_tok(t.get(1)) {
+                Some(i) => Some((i, Draw::Raw)),
+                None => return bad(),
+            },
+            ("nx", 3, 5) => {
+                let (recv, a, b, i) = match (recv_of(hd.get(1)), t[2].parse::<i128>().ok(), t[3].parse::<i128>().ok(), slot_tok(t.get(4))) {
+                    (Some(r), Some(a), Some(b), Some(i)) => (r, a, b, i),
+                    _ => return bad(),
+                };
+                if !TYPES.contains(&hd[2]) || !FORMS.contains(&t[1]) {
+                    return bad();
+                }
+                let (min, max) = ty_bounds(hd[2]);
+                let fits = |x: i128| min <= x && x <= max;
+                let typed = match t[1] {
+                    "range" | "incl" => fits(a) && fits(b),
+                    "to" | "toincl" => fits(b),
+                    _ => true,
+                };
+                if !typed {
+                    // bounds that are not values of the type cannot be written in Rust: outside the domain (driver: S any)
+                    return INVALID.into();
+                }
+                Some((i, Draw::Nx { recv, ty: hd[2].to_string(), form: t[1].to_string(), a, b }))
+            }
+            ("nf", 2, 4) => {
+                let (recv, s, e, i) = match (
+                    recv_of(hd.get(1)),
+                    u64::from_str_radix(t[1], 16).ok(),
+                    u64::from_str_radix(t[2], 16).ok(),
+                    slot_tok(t.get(3)),
+                ) {
+                    (Some(r), Some(s), Some(e), Some(i)) => (r, s, e, i),
+                    _ => return bad(),
+                };
+                Some((i, Draw::Nf { recv, s: f64::from_bits(s), e: f64::from_bits(e) }))
+            }
+            ("sh", 3, 3) => {
+                let (recv, n, i) = match (recv_of(hd.get(1)), t[1].parse::<usize>().ok(), slot_tok(t.get(2))) {
+                    (Some(r), Some(n), Some(i)) => (r, n, i),
+                    _ => return bad(),
+                };
+                if n > 4096 || (hd[2] == "u8" && n > 256) {
+                    return bad();
+                }
+                if !SHUFFLE_ELTS.contains(&hd[2]) {
+                    return bad();
+                }
+                Some((i, Draw::Sh { recv, elt: hd[2].to_string(), n }))
+            }
+            _ => None,
+        };
+        if let Some((i, d)) = draw {
+            let i = i % len;
+            let (o, class, want) = apply_draw(&mut slots[i].0, &d, false);
+            // the oracle: a fresh generator from the seed of this generator's lineage, bit copies only, the same
+            // operations replayed through generic code, must observe the same
+            let lin = &slots[i].1;
+            let mut fresh = G::seed(lin.seed);
+            for h in &lin.hist {
+                let _ = apply_draw(&mut fresh, h, true);
+            }
+            let (o2, _, _) = apply_draw(&mut fresh, &d, true);
+            if view.is_none() {
+                if class != want {
+                    view = Some(format!("op{}:{}", k, class));
+                } else if o != o2 {
+                    view = Some(format!("op{}:nondet", k));
+                }
+            }
+            slots[i].1.hist.push(d);
+            if hd[0] == "fork" {
+                // a returned word is fed back as a seed
+                match o.parse::<u64>() {
+                    Ok(w) => slots.push((G::seed(w), Lineage { seed: w, hist: vec![] })),
+                    Err(_) => return bad(),
+                }
+            }
+            obs.push(o);
+            continue;
+        }
+        match (hd[0], hd.len(), t.len()) {
+            ("new", 1, 2) => match t[1].parse::<u64>() {
+                Ok(s) => slots.push((G::seed(s), Lineage { seed: s, hist: vec![] })),
+                Err(_) => return bad(),
+            },
+            ("cp", 2, 2) => {
+                let i = match slot_tok(t.get(1)) {
+                    Some(i) => i % len,
+                    None => return bad(),
+                };
+                let src = slots[i].0;
+                match catch(|| copy_via(hd[1], &src)) {
+                    Ok(Some(c)) => {
+                        let lin = slots[i].1.clone();
+                        slots.push((c, lin));
+                    }
+                    Ok(None) => return bad(),
+                    Err(p) => {
+                        if view.is_none() {
+                            view = Some(format!("op{}:{}", k, p));
+                        }
+                        let lin = slots[i].1.clone();
+                        slots.push((src, lin));
+                    }
+                }
+            }
+            ("as", 2, 3) => {
+                let (i, j) = match (slot_tok(t.get(1)), slot_tok(t.get(2))) {
+                    (Some(i), Some(j)) => (i % len, j % len),
+                    _ => return bad(),
+                };
+                let src = slots[i].0;
+                let lin = slots[i].1.clone();
+                let mut dst = slots[j].0;
+                match catch(|| assign_via(hd[1], &mut dst, &src)) {
+                    Ok(true) => {}
+                    Ok(false) => return bad(),
+                    Err(p) => {
+                        if view.is_none() {
+                            view = Some(format!("op{}:{}", k, p));
+                        }
+                    }
+                }
+                // `dst` is a bit copy of slot j taken above; write it back the same way
+                slots[j] = (dst, lin);
+            }
+            ("all", 2, 1) => {
+                let gens: Vec<G> = slots.iter().map(|s| s.0).collect();
+                let copies = match catch(|| copy_all(hd[1], &gens)) {
+                    Ok(Some(c)) if c.len() == gens.len() => c,
+                    Ok(Some(_)) => {
+                        if view.is_none() {
+                            view = Some(format!("op{}:lost-generators", k));
+                        }
+                        gens.clone()
+                    }
+                    Ok(None) => return bad(),
+                    Err(p) => {
+                        if view.is_none() {
+                            view = Some(format!("op{}:{}", k, p));
+                        }
+                        gens.clone()
+                    }
+                };
+                let lins: Vec<Lineage> = slots.iter().map(|s| s.1.clone()).collect();
+                if len <= DUP_ALL_CAP {
+                    for (c, l) in copies.into_iter().zip(lins) {
+                        slots.push((c, l));
+                    }
+                } else {
+                    slots = copies.into_iter().zip(lins).collect();
+                }
+            }
+            _ => return bad(),
+        }
+        obs.push("-".to_string());
+    }
+    out2(&obs.join("/"), view.as_deref().unwrap_or("ok"))
+}
+
+fn run_multi_line(toks: &[&str], ops: &[&str]) -> String {
+    if toks.len() < 3 {
+        return INVALID.into();
+    }
+    let seeds = &toks[3..];
+    match (toks[1], toks[2]) {
+        ("-", "-") => run_multi::<Rng>(seeds, ops),
+        ("6364136223846793005", "1442695040888963407") => {
+            run_multi::<LinearCongruentialGenerator64<6364136223846793005, 1442695040888963407>>(seeds, ops)
+        }
+        ("1", "1") => run_multi::<LinearCongruentialGenerator64<1, 1>>(seeds, ops),
+        ("5", "3") => run_multi::<LinearCongruentialGenerator64<5, 3>>(seeds, ops),
+        ("2862933555777941757", "3037000493") => run_multi::<LinearCongruentialGenerator64<2862933555777941757, 3037000493>>(seeds, ops),
+        ("18446744073709551615", "18446744073709551615") => {
+            run_multi::<LinearCongruentialGenerator64<18446744073709551615, 18446744073709551615>>(seeds, ops)
+        }
+        ("0", "0") => run_multi::<LinearCongruentialGenerator64<0, 0>>(seeds, ops),
+        ("4294967297", "9223372036854775808") => run_multi::<LinearCongruentialGenerator64<4294967297, 9223372036854775808>>(seeds, ops),
+        _ => INVALID.into(),
+    }
+}
+
+const LCG_VARIANTS: [(&str, &str); 7] = [
+    ("6364136223846793005", "1442695040888963407"),
+    ("1", "1"),
+    ("5", "3"),
+    ("2862933555777941757", "3037000493"),
+    ("18446744073709551615", "18446744073709551615"),
+    ("0", "0"),
+    ("4294967297", "9223372036854775808"),
+];
+
 fn run_case(line: &str) -> String {
     let parts: Vec<&str> = line.split(';').map(|p| p.trim()).collect();
     let toks: Vec<&str> = parts[0].split_whitespace().collect();
@@ -431,7 +1054,25 @@ fn run_case(line: &str) -> String {
             if nseeds < 20 * cells {
                 return INVALID.into();
             }
-            let st = perm_stat(n, (0..nseeds).map(|i| seed0 + i));
+            // `permstat:<elt>[-d|-w]`: the same statistic for slices of another element type / through another receiver
+            // (the suffix means nothing to the model: `shuffle` is generic in the element type)
+            let (elt, recv) = match ty {
+                "" => ("", 'd'),
+                t => {
+                    let (e, r) = match t.split_once('-') {
+                        Some((e, "d")) => (e, 'd'),
+                        Some((e, "w")) => (e, 'w'),
+                        Some(_) => return INVALID.into(),
+                        None => (t, 'g'),
+                    };
+                    let e = if e == "bytes" { "u8" } else { e };
+                    if !SHUFFLE_ELTS.contains(&e) || e == "zst" || e == "usize" || t.starts_with("u8") {
+                        return INVALID.into();
+                    }
+                    (e, r)
+                }
+            };
+            let st = perm_stat_elt(n, (0..nseeds).map(|i| seed0 + i), elt, recv);
             let fair = st.bad == 0 && st.reached == cells && st.s <= (CHI2_BOUND[n] as u128) * (nseeds as u128) * (cells as u128);
             out2(&format!("reached={} s={} bad={}", st.reached, st.s, st.bad), if fair { "fair" } else { "unfair" })
         }
@@ -465,6 +1106,7 @@ fn run_case(line: &str) -> String {
             let ok = bad == 0 && reached == cells && maxc == 1;
             out2(&format!("reached={} max={} bad={}", reached, maxc, bad), if ok { "all-once" } else { "not-bijective" })
         }
+        "multi" => run_multi_line(&toks, ops),
         "shufraw" => {
             let n = match toks.get(1).and_then(|t| t.parse::<usize>().ok()) {
                 Some(n) => n,
@@ -678,6 +1320,212 @@ fn perm_vectors(n: usize, f: &mut dyn FnMut(&[u64])) {
     }
     let mut cur = Vec::new();
     rec(1, n, &mut cur, f);
+}
+
+
+/// `multi` lines: several generators alive at once, used interleaved; copies through every entry point; both the
+/// original and the copy are drawn from afterwards (at the latest by the closing `raw` on every live generator)
+fn gen_multi(emit: &mut dyn FnMut(String), st: &mut Stats, rng: &mut SplitMix64, thorough: bool) {
+    let nlines = if thorough { 60_000 } else { 2_600 };
+    let seed_pool: [u64; 8] = [0, 1, 42, u64::MAX, 1u64 << 63, 7, 0x9e3779b97f4a7c15, 0x5eed];
+    // every kind of copy at least a few times per run, whatever the random choices below
+    let mut forced: Vec<String> = Vec::new();
+    for k in COPY_KINDS {
+        forced.push(format!("cp:{}", k));
+    }
+    for k in ASSIGN_KINDS {
+        forced.push(format!("as:{}", k));
+    }
+    for k in ALL_KINDS {
+        forced.push(format!("all:{}", k));
+    }
+    for line_no in 0..nlines {
+        let variant = if rng.chance(3, 4) { ("-", "-") } else { *rng.pick(&LCG_VARIANTS) };
+        if variant.0 != "-" {
+            st.bump("multi_other_const_params");
+        }
+        let nseeds = 1 + rng.below(3) as usize;
+        let mut seeds: Vec<u64> = Vec::new();
+        for _ in 0..nseeds {
+            let s = match rng.below(4) {
+                0 => *rng.pick(&seed_pool),
+                1 if !seeds.is_empty() => seeds[0], // equal seeds side by side
+                2 => rng.below(100),
+                _ => rng.next_u64(),
+            };
+            seeds.push(s);
+        }
+        let mut live = seeds.len();
+        let mut ops: Vec<String> = Vec::new();
+        let cap = if rng.chance(1, 6) { 36 } else { 16 };
+        let nops = 3 + rng.below(cap) as usize;
+        // generators that were just copied / copied into: draw from them next
+        let mut pending: Vec<usize> = Vec::new();
+        let draw_op = |rng: &mut SplitMix64, st: &mut Stats, i: usize, big: bool| -> String {
+            let recv = *rng.pick(&["d", "g", "g", "w"]);
+            match rng.below(10) {
+                0..=2 => {
+                    st.bump("multi_op_raw");
+                    format!("raw {}", i)
+                }
+                3..=5 => {
+                    let ty = *rng.pick(&TYPES);
+                    let form = *rng.pick(&FORMS);
+                    let (min, max) = ty_bounds(ty);
+                    let a = if form == "range" || form == "incl" {
+                        match rng.below(4) {
+                            0 => min,
+                            1 => 0,
+                            _ => (rng.range_i64(-100, 100) as i128).clamp(min, max - 1),
+                        }
+                    } else {
+                        0
+                    };
+                    let b = match rng.below(5) {
+                        0 => max,
+                        1 => (a + 1 + rng.below(3) as i128).min(max),
+                        2 if ty == "u64" && a < 1_000_000_007 => 1_000_000_007,
+                        _ => (a + 1 + rng.below(1000) as i128).min(max),
+                    };
+                    let (a, b) = if form == "full" { (0, 0) } else { (a, b) };
+                    st.bump("multi_op_next");
+                    st.bump(&format!("multi_recv_{}", recv));
+                    format!("nx:{}:{} {} {} {} {}", recv, ty, form, a, b, i)
+                }
+                6 => {
+                    let (mut s, mut e) = (float_pool(rng), float_pool(rng));
+                    if !(s < e) {
+                        std::mem::swap(&mut s, &mut e);
+                    }
+                    if !(s < e) {
+                        s = 0.0;
+                        e = 1.0;
+                    }
+                    st.bump("multi_op_nextf");
+                    format!("nf:{} {:016x} {:016x} {}", recv, s.to_bits(), e.to_bits(), i)
+                }
+                _ => {
+                    let elt = *rng.pick(&SHUFFLE_ELTS);
+                    let mut n = if big {
+                        2000 + rng.below(2000) as usize
+                    } else if rng.chance(1, 12) {
+                        rng.below(200) as usize
+                    } else {
+                        rng.below(10) as usize
+                    };
+                    if elt == "u8" {
+                        n = n.min(256);
+                    }
+                    st.bump("multi_op_shuffle");
+                    st.bump(&format!("multi_shuffle_elt_{}", elt));
+                    st.bump(&format!("multi_recv_{}", recv));
+                    if n >= 2000 {
+                        st.bump("multi_shuffle_big");
+                    }
+                    format!("sh:{}:{} {} {}", recv, elt, n, i)
+                }
+            }
+        };
+        // a few lines carry one big shuffle (sizes beyond small scope) before the copies
+        let big_line = line_no % (if thorough { 1000 } else { 650 }) == 5;
+        for k in 0..nops {
+            if big_line && k == 0 {
+                let elt = *rng.pick(&["usize", "str", "big", "zst", "boxed", "pair"]);
+                let n = 2000 + rng.below(2000);
+                st.bump("multi_shuffle_big");
+                ops.push(format!("sh:{}:{} {} 0", *rng.pick(&["d", "g", "w"]), elt, n));
+                pending.push(0);
+                continue;
+            }
+            if let Some(i) = pending.pop() {
+                if rng.chance(4, 5) {
+                    ops.push(draw_op(rng, st, i, false));
+                    continue;
+                }
+            }
+            let i = rng.below(live as u64) as usize;
+            let forced_now = if k == 1 + (line_no % 3) && !forced.is_empty() && line_no < 4 * 49 { Some(forced[line_no % forced.len()].clone()) } else { None };
+            let choice = if forced_now.is_some() { 100 } else { rng.below(100) };
+            match choice {
+                0..=49 => ops.push(draw_op(rng, st, i, false)),
+                50..=74 | 100 if forced_now.as_deref().map_or(true, |f| f.starts_with("cp:")) => {
+                    let kind = match &forced_now {
+                        Some(f) => f[3..].to_string(),
+                        None => rng.pick(&COPY_KINDS).to_string(),
+                    };
+                    st.bump("multi_op_copy");
+                    st.bump(&format!("multi_copy_{}", kind));
+                    ops.push(format!("cp:{} {}", kind, i));
+                    // draw from the copy and from the original, in either order
+                    if rng.chance(1, 2) {
+                        pending.push(i);
+                        pending.push(live);
+                    } else {
+                        pending.push(live);
+                        pending.push(i);
+                    }
+                    live += 1;
+                }
+                75..=84 | 100 if forced_now.as_deref().map_or(true, |f| f.starts_with("as:")) => {
+                    let kind = match &forced_now {
+                        Some(f) => f[3..].to_string(),
+                        None => rng.pick(&ASSIGN_KINDS).to_string(),
+                    };
+                    let j = rng.below(live as u64) as usize;
+                    st.bump("multi_op_assign");
+                    st.bump(&format!("multi_assign_{}", kind));
+                    if i == j {
+                        st.bump("multi_assign_self");
+                    }
+                    ops.push(format!("as:{} {} {}", kind, i, j));
+                    pending.push(i);
+                    pending.push(j);
+                }
+                85..=89 | 100 => {
+                    let kind = match &forced_now {
+                        Some(f) => f[4..].to_string(),
+                        None => rng.pick(&ALL_KINDS).to_string(),
+                    };
+                    st.bump("multi_op_copy_all");
+                    st.bump(&format!("multi_all_{}", kind));
+                    ops.push(format!("all:{}", kind));
+                    if live <= DUP_ALL_CAP {
+                        pending.push(i);
+                        pending.push(live + i);
+                        live *= 2;
+                    } else {
+                        pending.push(i);
+                    }
+                }
+                90..=95 => {
+                    st.bump("multi_op_fork");
+                    ops.push(format!("fork {}", i));
+                    pending.push(live);
+                    live += 1;
+                }
+                _ => {
+                    let s = if rng.chance(1, 2) { seeds[0] } else { rng.next_u64() };
+                    st.bump("multi_op_new");
+                    ops.push(format!("new {}", s));
+                    pending.push(live);
+                    live += 1;
+                }
+            }
+        }
+        // closing observation of every live generator (the first 16)
+        for i in 0..live.min(16) {
+            if ops.len() < 64 {
+                ops.push(format!("raw {}", i));
+            }
+        }
+        ops.truncate(64);
+        st.bump("multi_lines");
+        st.add("multi_ops", ops.len() as u64);
+        if live >= 4 {
+            st.bump("multi_lines_4plus_live_generators");
+        }
+        emit(format!("multi {} {} {} ; {}", variant.0, variant.1, seeds.iter().map(|x| x.to_string()).collect::<Vec<_>>().join(" "), ops.join(" ; ")));
+    }
 }
 
 fn gen(args: &Args, emit: &mut dyn FnMut(String), st: &mut Stats) {
@@ -1030,6 +1878,19 @@ fn gen(args: &Args, emit: &mut dyn FnMut(String), st: &mut Stats) {
         }
     }
 
+    // ... the same for slices of other element types (String, 128-byte arrays, Box, tuples, bytes) and through the other receivers
+    for (k, elt) in ["big", "str", "boxed", "pair", "bytes"].iter().enumerate() {
+        for (j, (n, ns)) in [(3usize, 3_000u64), (4, 5_000)].iter().enumerate() {
+            let suffix = ["", "-d", "-w"][(k + j) % 3];
+            let reps = if thorough { 3 } else { 1 };
+            for r in 0..reps {
+                let seed0 = if r == 0 && k % 2 == 0 { 0 } else { rng.next_u64() >> 1 };
+                emit(format!("permstat:{}{} {} {} {}", elt, suffix, n, ns, seed0));
+                st.bump("permstat_element_types");
+            }
+        }
+    }
+
     // (8) shuffle from a seed
     let nshuf = if thorough { 30_000 } else { 2_000 };
     for i in 0..nshuf {
@@ -1079,6 +1940,19 @@ fn gen(args: &Args, emit: &mut dyn FnMut(String), st: &mut Stats) {
         emit(format!("shufraw {} ; {}", n, join_raws(&raws)));
         st.bump("shufraw_adversarial");
     }
+
+    // (10) several live generators, copies through every entry point (Copy, Clone::clone, clone_from, containers, derived Clone)
+    gen_multi(emit, st, &mut rng, thorough);
+
+    // (11) sizes beyond small scope: long streams, long shuffles
+    for (k, &n) in (if thorough { &[4096usize, 20_000, 65_536][..] } else { &[4096usize][..] }).iter().enumerate() {
+        emit(format!("stream {} {} {}", if k == 0 { 42 } else { rng.next_u64() }, n, rng.below(n as u64)));
+        st.bump("stream_long");
+    }
+    for &n in if thorough { &[1000usize, 2500, 4000, 6000][..] } else { &[1000usize, 3000][..] } {
+        emit(format!("shuffle {} {}", rng.next_u64(), n));
+        st.bump("shuffle_long");
+    }
 }
 
 // ------------------------------------------------------------------------------------------------
@@ -1111,6 +1985,11 @@ struct PermStat {
 }
 
 fn perm_stat(n: usize, seeds: impl Iterator<Item = u64>) -> PermStat {
+    perm_stat_elt(n, seeds, "", 'd')
+}
+
+/// `elt` = "" : the plain `Vec<usize>` shuffled by method syntax on `Rng`; else an element type of `shuffle_elts` and a receiver
+fn perm_stat_elt(n: usize, seeds: impl Iterator<Item = u64>, elt: &str, recv: char) -> PermStat {
     let cells: usize = (1..=n).product();
     let mut counts = vec![0u64; cells];
     let mut bad = 0u64;
@@ -1118,8 +1997,23 @@ fn perm_stat(n: usize, seeds: impl Iterator<Item = u64>) -> PermStat {
     for seed in seeds {
         nseeds += 1;
         let mut g = Rng::from_seed(seed);
-        let mut v: Vec<usize> = (0..n).collect();
-        if catch(|| g.shuffle(&mut v)).is_err() || !is_perm_of_range(&v, n) {
+        let v: Vec<usize> = if elt.is_empty() {
+            let mut v: Vec<usize> = (0..n).collect();
+            if catch(|| g.shuffle(&mut v)).is_err() {
+                bad += 1;
+                continue;
+            }
+            v
+        } else {
+            match catch(|| shuffle_elts(&mut g, recv, elt, n)) {
+                Ok(Some(v)) => v,
+                _ => {
+                    bad += 1;
+                    continue;
+                }
+            }
+        };
+        if !is_perm_of_range(&v, n) {
             bad += 1;
             continue;
         }
